@@ -235,15 +235,15 @@ class LogConfig(object):
                              var.name,
                              element_id,
                              var.get_storage_and_fetch_byte())
+                # Type byte followed by the variable id (two bytes in V2)
+                size_to_add = 3 if self.useV2 else 2
+                if pk.available_data_size() < size_to_add:
+                    # Packet is full, the rest goes into an append message
+                    return False, i
                 pk.data.append(var.get_storage_and_fetch_byte())
                 if self.useV2:
-                    size_to_add = 2
-                    if pk.available_data_size() >= size_to_add:
-                        pk.data.append(element_id & 0x0ff)
-                        pk.data.append((element_id >> 8) & 0x0ff)
-                    else:
-                        # Packet is full
-                        return False, i
+                    pk.data.append(element_id & 0x0ff)
+                    pk.data.append((element_id >> 8) & 0x0ff)
                 else:
                     pk.data.append(element_id)
 
